@@ -103,7 +103,30 @@ def line_for(rng, c):
     return "cstream %s %s %s %s %s%s" % (ps, xs, ins, outs, dirs, dd)
 
 
+def tie_header(ctx):
+    """function-level tie of Model/HeaderW.lean (theorem header_roundtrip) to ZSTD_writeFrameHeader"""
+    rng = ctx.rng
+    hx = build.link("zvh_cwksp", ["zvh_cwksp.c"], "plain", exclude=("zstd_compress.c",))
+    sizes = [0, 1, 2, 255, 256, 257, 65535, 65536, 65791, 65792, 65793, (1 << 32) - 2, (1 << 32) - 1, 1 << 32, (1 << 32) + 1, 1 << 40, (1 << 64) - 2]
+    dids = [0, 1, 2, 255, 256, 257, 65535, 65536, 65537, (1 << 32) - 1]
+    lines = []
+    for i in range(6000 if ctx.quick() else 100000):
+        wl = rng.randint(10, 31)
+        pl = rng.choice(sizes + [(1 << wl) - 1, 1 << wl, (1 << wl) + 1, rng.randrange(1 << rng.randint(1, 63))])
+        did = rng.choice(dids + [rng.randrange(1 << 32)])
+        lines.append("fhdr %d %d %d %d %d %d %d" % (wl, pl, rng.randint(0, 1), did, int(rng.random() < 0.25), rng.randint(0, 1), int(rng.random() < 0.2)))
+    co, mo, rc, err = zv.differential(hx, "mem", lines, timeout=900)
+    if len(co) != len(lines) or len(mo) != len(lines):
+        ctx.violation("frame-header tie did not complete (%d / %d / %d lines): %s" % (len(lines), len(co), len(mo), (err or "")[-300:]), dict(kind="tie-header"), no_input=True)
+    for ln, a, b in zip(lines, co, mo):
+        if a != b:
+            ctx.violation("frame-header writer model differs from ZSTD_writeFrameHeader: %s -> code %s, model %s" % (ln, a, b), dict(kind="tie-header", op=ln, code=a, model=b), no_input=True)
+            break
+    return len(lines)
+
+
 def correspondence(ctx):
+    ntie = tie_header(ctx)
     exe = frames.harness()
     cases = gen_cases(ctx)
     lines = [line_for(ctx.rng, c) for c in cases]
@@ -133,7 +156,7 @@ def correspondence(ctx):
             ctx.violation("independent decoder does not regenerate the input from the emitted frame: %s (mode %s, params %s)" % (r, c["mode"], frames.pstr(c["p"])), rep)
         if len(ctx.violations) >= 5:
             break
-    return dict(evaluations=len(cases), distinct_nontrivial=len(distinct),
+    return dict(evaluations=len(cases) + ntie, distinct_nontrivial=len(distinct), header_writer_tie_calls=ntie,
                 rule="frames from compress2 / compressStream2 under random call histories / multithreaded compression (1-3 workers, jobSize, overlapLog, rsyncable) / dictionaries, "
                      "including inputs several windows long with repeats placed just inside / at / just beyond the window (windowLog 10..17, LDM on/off); each frame is decoded by the independent Lean decoder and its "
                      "trace checked by Conform.checkFrame; distinct = (input hash, call line prefix)",
